@@ -119,6 +119,7 @@ static const struct { const char *prefix; const char *cls; } diagtab[] = {
 	{ "%s: %s", "includeOpen" },
 	{ "wrong number of arguments to cfg_include", "includeArgs" },
 	{ "callback failed", "callback" },
+	{ "no parse callback", "noParseCb" },
 	{ NULL, NULL }
 };
 
